@@ -164,6 +164,18 @@ func SimpleNames(t *rapid.T, n int, prefix string) []string {
 			base[i] += verbs[i%len(verbs)]
 		}
 	}
+	// one name list in twelve has labels written between quotes, some with a blank inside, next to
+	// plain ones ('Homo sapiens' as FigTree or BEAST write it): the quotes are part of the name
+	if rapid.IntRange(0, 11).Draw(t, "quoted") == 5 {
+		for i := range base {
+			switch i % 3 {
+			case 0:
+				base[i] = "'" + base[i] + " sp'"
+			case 1:
+				base[i] = "'" + base[i] + "'"
+			}
+		}
+	}
 	if n <= 1 {
 		return base
 	}
